@@ -45,7 +45,16 @@ def run_cases(P, cases, builds, want_model=True, envs=None):
         groups.setdefault(key, []).append(i)
     try:
         if want_model:
-            out["model"] = vlib.run_model(path)
+            mmax = P.get("model_max_len")
+            if mmax:
+                mpath = path + ".model"
+                vlib.write_cases(mpath, [(l if len(vlib.parse_case(l)[1].get("h", "")) // 2 <= mmax else "# too large for the model") for l in cases])
+                try:
+                    out["model"] = vlib.run_model(mpath)
+                finally:
+                    os.remove(mpath)
+            else:
+                out["model"] = vlib.run_model(path)
         for name, exe, env in builds:
             if list(groups) == ["host"]:
                 out[name] = vlib.run_lines(exe, path, env=env)
@@ -311,6 +320,8 @@ def main():
             # correspondence with the model
             if model_rows is not None:
                 mres, mtr = model_rows[i]
+                if mres == "#":
+                    continue
                 if P.get("canon"):
                     if mres == "n/a" or res in ("BadCase", "UnknownOp"):
                         continue
@@ -352,7 +363,7 @@ def main():
     if broken and not violations and builds and tier == "quick" and P.get("escalate", True):
         log("escalating: broken obligation/correspondence, searching for a failing input with the thorough generators")
         rng2 = random.Random(seed + 1)
-        more = P["gen"]("thorough", rng2)
+        more = P["escalate_gen"](rng2) if P.get("escalate_gen") else P["gen"]("thorough", rng2)
         more = more[: P.get("escalate_max", 60000)]
         outs2 = run_cases(P, more, builds[:1], want_model=False)
         bname, exe, env = builds[0]
